@@ -7,7 +7,7 @@ import re
 
 import codec as C
 from codec import sansldap
-from sansldap._filter import FilterSyntaxError
+FilterSyntaxError = C.FilterSyntaxError
 
 # RFC 4512 attributedescription / oid, written independently of the library's pattern
 NUMBER = r"(?:0|[1-9][0-9]*)"
